@@ -11,5 +11,7 @@ CONSTANTS
   MaxDials = 3
   MaxCalls = 5
   MaxStore = 1
+  CtxMode = "ignored"
+  MaxStalls = 0
 INVARIANTS TypeOK SuccessOnlyIf KeysAgree PoolIsIssued PoolReturned Destination NoResidue NoResidueState
 PROPERTIES IgnoresNonCritical
